@@ -29,7 +29,11 @@ import time
 import traceback
 import weakref
 
-CLOCK_BASE = 1_000_000_000  # simulated seconds; exact as float
+# The simulated clock counts quarter-seconds (TICK_NS each): file systems keep
+# sub-second mtimes, and code that truncates or pads timestamps to whole
+# seconds must be able to go wrong.  st_mtime stays exact as a float.
+TICK_NS = 250_000_000
+CLOCK_BASE = 4_000_000_000  # = 1 000 000 000 s
 
 _REAL = {
     "io_open": io.open,
@@ -443,14 +447,14 @@ class World:
     def advance(self, n):
         if n:
             self.clock += n
-            self.sim_seconds += max(0, n)
+            self.sim_seconds += max(0, n) * TICK_NS / 1e9
 
     def stamp_fd(self, fd):
-        ns = self.clock * 1_000_000_000
+        ns = self.clock * TICK_NS
         _REAL["utime"](fd, ns=(ns, ns))
 
     def stamp_path(self, path, when=None):
-        ns = (self.clock if when is None else when) * 1_000_000_000
+        ns = (self.clock if when is None else when) * TICK_NS
         _REAL["utime"](path, ns=(ns, ns))
 
     # -- the event hook ----------------------------------------------------
@@ -799,10 +803,10 @@ class World:
         return self._cur.pid
 
     def sim_time(self):
-        return float(self.clock)
+        return self.clock * TICK_NS / 1e9
 
     def sim_time_ns(self):
-        return self.clock * 1_000_000_000
+        return self.clock * TICK_NS
 
     # -- install / uninstall ----------------------------------------------
     def install(self):
